@@ -361,6 +361,10 @@ pub fn run(run: &Run) {
         total_edges += e;
         total_nodes += (l + 1) as u64;
         reports.push(json!({"case": case.name, "stream_bytes": l, "start_offsets": offsets.len(), "edges": e, "all_partitions": offsets.len() == l + 1}));
+        if reports.len() <= 2 {
+            run.sample(json!({"case": case.name, "edge_examples": [{"from_offset": offsets[offsets.len() / 2], "call_lengths": "0..=rest"}, {"from_offset": 1536, "call_lengths": "0..=rest"}],
+                "emitted_after_consuming": {"0": canon.resp_len[0], "1": canon.resp_len[1], "1537": canon.resp_len[1537], "3073": canon.resp_len[HS]}}));
+        }
         emissions.push((case.name.clone(), canon.resp_len.clone(), l));
     }
     // ---- joint interleavings: client (speaks first / waits) x server (speaks first / waits) ----
